@@ -106,8 +106,20 @@ def check(run, prog):
     dask_out_rule(ck, prog, "R2")
     for label, ufunc, inputs, kw, selfv in plans:
         ev = ck.evaluator()
-        r = ck.attempt("R2", fi.where, label, "evaluates", lambda: ev.call(fi, [ufunc, StrV("__call__")] + inputs, dict(kw), self_val=selfv), ev=ev,
-                       allowed_guards=[])
+        unwrap = lambda v: v.attrs["_data"] if isinstance(v, ObjV) else v  # noqa: E731
+        exp_args = [unwrap(v) for v in inputs]
+        # an out= plan writes its target: the signals are shared between plans, so their state is put back afterwards
+        objs = [v for v in list(inputs) + (list(kw["out"].items) if "out" in kw else []) if isinstance(v, ObjV)]
+        saved = [(o, dict(o.attrs)) for o in objs]
+        given_pre = list(kw["out"].items) if "out" in kw else None
+        try:
+            r = ck.attempt("R2", fi.where, label, "evaluates", lambda: ev.call(fi, [ufunc, StrV("__call__")] + inputs, dict(kw), self_val=selfv), ev=ev,
+                           allowed_guards=[])
+        finally:
+            after = [(o, dict(o.attrs)) for o in objs]
+            for o, a_ in saved:
+                o.attrs.clear()
+                o.attrs.update(a_)
         if r is None:
             continue
         calls = [t for t in ev.trace if t[0] == "ufunc-call"]
@@ -115,13 +127,14 @@ def check(run, prog):
             ck.same("R2", fi.where, label, "the underlying ufunc is applied exactly once", False, found=f"{len(calls)} calls", nontrivial=True)
             continue
         _, name, cargs, ckw, node = calls[0]
-        unwrap = lambda v: v.attrs["_data"] if isinstance(v, ObjV) else v  # noqa: E731
-        exp_args = [unwrap(v) for v in inputs]
         ok_args = len(cargs) == len(exp_args) and all(_same_val(a, b) for a, b in zip(cargs, exp_args))
         ck.same("R2", fi.where, label + ": inputs", "every signal among the inputs is replaced by its data array, everything else passed as is, in order",
                 ok_args, found=str(cargs)[:200], expected=str(exp_args)[:200], nontrivial=True)
         nout = int(ufunc.dotted.split(":")[3])
-        given = list(kw["out"].items) if "out" in kw else [NONE] * nout
+        given = given_pre if given_pre is not None else [NONE] * nout
+        if given_pre is not None:
+            kw["out"].items[:] = given_pre          # (a raw array target is replaced by its written value in the caller's tuple)
+        written_of = {id(t[2]): t[3] for t in ev.trace if t[0] == "out-written"}
         got_out = ckw.get("out")
         ok_out = isinstance(got_out, TupleV) and len(got_out.items) == nout and all(_same_val(a, unwrap(b)) for a, b in zip(got_out.items, given))
         if got_out is None or isinstance(got_out, NoneV):
@@ -149,7 +162,7 @@ def check(run, prog):
                     ck.same("R2", fi.where, label + f": result {k} dtype", "the wrapped data has the dtype NumPy gave the ufunc output (no narrowing back to the operand's precision)",
                             isinstance(got_dt, ExtV) and got_dt.dotted == want_dt.dotted, found=repr(got_dt), expected=repr(want_dt), nontrivial=True)
             else:
-                ck.same("R2", fi.where, label + f": result {k}", "the given out object itself is returned (its own metadata is kept)", res is g,
+                ck.same("R2", fi.where, label + f": result {k}", "the given out object itself is returned (its own metadata is kept)", res is g or res is written_of.get(id(g)),
                         found=repr(res)[:120], nontrivial=True)
 
     # ------------------------------------------------------------------ R3 protocol methods
